@@ -2,6 +2,8 @@ package main
 
 import (
 	"encoding/json"
+	"os"
+	"path/filepath"
 	"sort"
 	"strings"
 
@@ -26,6 +28,11 @@ func archFamily(c map[string]json.RawMessage) (interface{}, error) {
 	identMap := map[string]core_domain.CodeDataStruct{}
 	for _, k := range identKeys {
 		identMap[k] = core_domain.CodeDataStruct{}
+	}
+	if boolean(c, "cli") {
+		if r, ok, err := archCli(c, identKeys, filters); ok || err != nil {
+			return r, err
+		}
 	}
 	result := arch.NewArchApp().Analysis(clzs, identMap)
 	if boolean(c, "mergeHeader") {
@@ -57,7 +64,23 @@ func archFamily(c map[string]json.RawMessage) (interface{}, error) {
 	if len(reparsed.Nodes.Nodes) != len(graph.Nodes.Nodes) || len(reparsed.Edges.Edges) != len(graph.Edges.Edges) {
 		return map[string]interface{}{"dotError": "re-parsed DOT has a different number of nodes/edges"}, nil
 	}
-	g := graph
+	nodes, edges := readLayout(graph)
+	allNodes := []string{}
+	for k := range result.NodeList {
+		allNodes = append(allNodes, k)
+	}
+	allRels := []string{}
+	for _, r := range result.RelationList {
+		allRels = append(allRels, r.From+" -> "+r.To)
+	}
+	sort.Strings(allNodes)
+	sort.Strings(allRels)
+	return map[string]interface{}{"nodes": nodes, "edges": edges, "allNodes": allNodes, "allRels": allRels}, nil
+}
+
+// readLayout reads a laid-out graph back as label paths: every node as the dotted path of its cluster labels and its own
+// label, every edge as "path -> path" (both sorted)
+func readLayout(g *gographviz.Graph) ([]string, []string) {
 	label := func(name string) string {
 		if sg, ok := g.SubGraphs.SubGraphs[name]; ok {
 			return unq(sg.Attrs["label"])
@@ -73,11 +96,15 @@ func archFamily(c map[string]json.RawMessage) (interface{}, error) {
 			if len(parents) == 0 {
 				break
 			}
-			var p string
+			// in a graph read back from DOT text a node that an edge mentions before its declaration is a child of the
+			// root graph AND of its cluster: the cluster is where it is drawn
+			p := ""
 			for k := range parents {
-				p = k
+				if k != "G" && (p == "" || k < p) {
+					p = k
+				}
 			}
-			if p == "G" || p == "" {
+			if p == "" {
 				break
 			}
 			parts = append([]string{label(p)}, parts...)
@@ -98,15 +125,59 @@ func archFamily(c map[string]json.RawMessage) (interface{}, error) {
 	}
 	sort.Strings(nodes)
 	sort.Strings(edges)
-	allNodes := []string{}
-	for k := range result.NodeList {
-		allNodes = append(allNodes, k)
+	return nodes, edges
+}
+
+// archCli: `coca arch -d deps.json [-H] [-P] [-x filters]` with the identifiers in coca_reporter/identify.json; the drawn
+// graph is read back from coca_reporter/arch.dot. ok=false: an identifier key without a dot cannot be written as
+// (Package, NodeName).
+func archCli(c map[string]json.RawMessage, identKeys, filters []string) (interface{}, bool, error) {
+	idents := []map[string]string{}
+	for _, k := range identKeys {
+		i := strings.LastIndex(k, ".")
+		if i < 0 {
+			return nil, false, nil
+		}
+		idents = append(idents, map[string]string{"Package": k[:i], "NodeName": k[i+1:]})
 	}
-	allRels := []string{}
-	for _, r := range result.RelationList {
-		allRels = append(allRels, r.From+" -> "+r.To)
+	for _, f := range filters {
+		if strings.Contains(f, ",") {
+			return nil, false, nil
+		}
 	}
-	sort.Strings(allNodes)
-	sort.Strings(allRels)
-	return map[string]interface{}{"nodes": nodes, "edges": edges, "allNodes": allNodes, "allRels": allRels}, nil
+	work, err := newWork()
+	if err != nil {
+		return nil, true, err
+	}
+	defer os.RemoveAll(work)
+	deps := filepath.Join(work, "deps.json")
+	if err := os.WriteFile(deps, c["clzs"], 0644); err != nil {
+		return nil, true, err
+	}
+	ib, _ := json.Marshal(idents)
+	_ = putReport(work, "identify.json", ib)
+	args := []string{"arch", "-d", deps, "-x", strings.Join(filters, ",")}
+	if boolean(c, "mergeHeader") {
+		args = append(args, "-H")
+	}
+	if boolean(c, "mergePackage") {
+		args = append(args, "-P")
+	}
+	if _, err := cocaCli(work, args...); err != nil {
+		return nil, true, err
+	}
+	b, err := getReport(work, "arch.dot")
+	if err != nil {
+		return nil, true, err
+	}
+	parsedAst, err := gographviz.ParseString(string(b))
+	if err != nil {
+		return map[string]interface{}{"dotError": err.Error()}, true, nil
+	}
+	g := gographviz.NewGraph()
+	if err := gographviz.Analyse(parsedAst, g); err != nil {
+		return map[string]interface{}{"dotError": err.Error()}, true, nil
+	}
+	nodes, edges := readLayout(g)
+	return map[string]interface{}{"nodes": nodes, "edges": edges}, true, nil
 }
